@@ -30,6 +30,11 @@ C03_OwnToken == JH => \A k \in 1..N : \A c \in 1..NC :
 \* "a response is never delivered to a different caller or to two callers"
 C03_AtMostOneCaller == JH => \A a, b \in 1..NC :
                    (a # b /\ FinalRes[a].pc = "ok" /\ FinalRes[b].pc = "ok") => <<FinalRes[a].forc, FinalRes[a].serial>> # <<FinalRes[b].forc, FinalRes[b].serial>>
+\* ... nor to a caller AND to the connection's own handler (where messages nobody waits for end up): of the n copies of an answer
+\* instance the peer put on the wire, those that reached the handler plus the one a caller got back are at most n
+Returned(c, sr) == Cardinality({a \in 1..NC : FinalRes[a].pc = "ok" /\ FinalRes[a].forc = c /\ FinalRes[a].serial = sr})
+SentN(c, sr) == LET m == {k \in 1..Len(T.sent) : T.sent[k][1] = c /\ T.sent[k][2] = sr} IN IF m = {} THEN 0 ELSE T.sent[CHOOSE k \in m : TRUE][3]
+C03_NotAlsoToHandler == JH => \A k \in 1..Len(T.stray) : T.stray[k][3] + Returned(T.stray[k][1], T.stray[k][2]) <= SentN(T.stray[k][1], T.stray[k][2])
 \* "a second request issued with a token that is still outstanding is rejected rather than displacing the first"
 OutBefore(k, c) == k > 1 /\ Ev[k - 1].res[c].pc = "out"
 C03_DupTokenRejected == JH => \A k \in 1..N :
